@@ -417,6 +417,15 @@ fn main() {
     for c in 0..32 {
         shards.push(("random", 10, c, 32));
     }
+    for c in 0..8 {
+        shards.push(("big", 10, c, 8));
+    }
+    // the slow shards first
+    shards.sort_by_key(|s| if s.0 == "big" { 0 } else { 1 });
+    // debugging aid: VMON_ONLY=<shard kind> restricts the run (the coverage requirements then fail: inconclusive)
+    if let Ok(only) = std::env::var("VMON_ONLY") {
+        shards.retain(|s| s.0 == only);
+    }
     for n in 0..=if thorough { 4usize } else { 4 } {
         shards.push(("lut", n, 0, 1));
     }
@@ -493,6 +502,56 @@ fn main() {
                     run(ctx, &format!("expr|ops={}", std::cmp::min(nops, 4)), ne, &leaves, &prog);
                 }
             }
+            "big" => {
+                // (!a) & (!b) with complements of a few hundred cubes each: more than 10^4 cube products in one
+                // `&`, the regime where an implementation has to batch / compact its intermediate results.
+                // Operands are drawn until the product count lies in a window that keeps one event ~1 s.
+                let reps = if thorough { 120 } else { 4 };
+                for _ in 0..reps {
+                    let nn = rng.range(9, 10);
+                    let mut tries = 0;
+                    loop {
+                        tries += 1;
+                        let mk = |rng: &mut Rng| -> Vec<CubeM> {
+                            (0..rng.range(7, 12))
+                                .map(|_| {
+                                    // dense cubes: most variables appear (complements are then sums of many
+                                    // literals whose products repeat the same cubes over and over)
+                                    let k = rng.range(nn - 4, nn - 1);
+                                    let mut vars: Vec<usize> = (0..nn).collect();
+                                    rng.shuffle(&mut vars);
+                                    let mut cb = CubeM::new(0, 0);
+                                    for v in vars.iter().take(k) {
+                                        if rng.bool() {
+                                            cb.pos |= 1 << v;
+                                        } else {
+                                            cb.neg |= 1 << v;
+                                        }
+                                    }
+                                    cb
+                                })
+                                .collect()
+                        };
+                        let a = mk(&mut rng);
+                        let b = mk(&mut rng);
+                        let sizes = guard(|| {
+                            let sa = !&Sop::from_cubes(nn, a.iter().map(|c| c.real()).collect());
+                            let sb = !&Sop::from_cubes(nn, b.iter().map(|c| c.real()).collect());
+                            sa.num_cubes() * sb.num_cubes()
+                        });
+                        let prod = match sizes {
+                            Outcome::Returned(p) => p,
+                            Outcome::Panicked(_) => 0,
+                        };
+                        if (17_000..=70_000).contains(&prod) || tries >= 60 {
+                            ctx.bump("big-product-events", 1);
+                            ctx.bump("big-product-cube-products", prod as u64);
+                            run(ctx, "expr|big-product", nn, &[a, b], &[Tok::Leaf(0), Tok::Not, Tok::Leaf(1), Tok::Not, Tok::And]);
+                            break;
+                        }
+                    }
+                }
+            }
             _ => {
                 for v in 0..n {
                     exec_ctor(ctx, &Ev::new("sop-ctor", "Sop", n).int(v));
@@ -532,5 +591,6 @@ fn main() {
     for ops in 1..=4 {
         required.push(format!("expr|ops={}", ops));
     }
+    required.push("expr|big-product".into());
     cli.finish(&ctx, &required, RULE);
 }
